@@ -105,6 +105,10 @@ impl FileSystem for OverlayFS {
                 }
             }
         }
+        // the bookkeeping folder is not part of the overlay's own namespace
+        if path.is_empty() {
+            entries.remove(".whiteout");
+        }
         Ok(Box::new(entries.into_iter()))
     }
 
